@@ -272,11 +272,11 @@ def superWalk (c : Core) (item : Nat) : Nat → Option Nat → Walk
 /-! ## operations, hooks, tasks -/
 
 inductive Hook where
-  | create | init | mod | act | id
+  | create | init | mod | act | id | hbeat
   deriving DecidableEq, Repr
 
 def Hook.str : Hook → String
-  | .create => "create" | .init => "init" | .mod => "mod" | .act => "act" | .id => "id"
+  | .create => "create" | .init => "init" | .mod => "mod" | .act => "act" | .id => "id" | .hbeat => "hbeat"
 
 /-- what a scripted LPC object can do (harness/mudlib/c08/obj.c: do_op) -/
 inductive Op where
@@ -284,6 +284,8 @@ inductive Op where
   | cl (b : Base)            -- clone_object("/c08/..")
   | mv (a d : Nat)           -- a->x_mv(d): move_object(d) executed by a
   | mvs (a : Nat) (b : Base) -- a->x_mvs("/c08/.."): move_object(string) executed by a (the destination is loaded on demand)
+  | hbe (a : Nat)            -- a: set_heart_beat(1)
+  | hbd (a : Nat)            -- a: set_heart_beat(0)
   | pr (e t : Nat)           -- present("o<t>", e): e's inventory is searched by calling id("o<t>") in every member
   | fis (b : Base)           -- first_inventory("/c08/..") (the object is loaded on demand)
   | de (a : Nat)             -- destruct(a)
@@ -314,6 +316,12 @@ structure World where
   fired : List (Nat × Hook) := []         -- hook invocations so far
   keep : List (Nat × Nat) := []           -- (holder, target): LPC variable `keep` of holder
   cg : Option Nat := none                 -- command_giver
+  -- the heart-beat list of src/backend.c, kept only so that the driver-initiated call channel can be predicted (its
+  -- own consistency is property C11): heart_beats[] in array order, heart_beat_index, num_hb_to_do
+  hbl : List Nat := []
+  hbIdx : Int := 0
+  hbTodo : Nat := 0
+  curHb : Option Nat := none              -- current_heart_beat
   initBad : Bool := false                 -- ghost: an init() was called between objects that are not adjacent
   out : List String := []                 -- canonical trace, newest first
 
@@ -340,9 +348,28 @@ structure R where
 def R.andThen (r : R) (k : World → Option Nat → R) : R :=
   if r.out = .ok then k r.w r.val else r
 
-/-- error(): error_handler() resets restrict_destruct, the master logs the first line -/
+/-- backend.c set_heart_beat(ob, 0): find the entry, adjust the round in progress, close the gap -/
+def hbRemove (w : World) (ob : Nat) : World :=
+  match w.hbl.idxOf? ob with
+  | none => w
+  | some index =>
+    let idx := if w.hbTodo ≠ 0 ∧ (index : Int) ≤ w.hbIdx then w.hbIdx - 1 else w.hbIdx
+    let todo := if w.hbTodo ≠ 0 ∧ index < w.hbTodo then w.hbTodo - 1 else w.hbTodo
+    { w with hbl := w.hbl.eraseIdx index, hbIdx := idx, hbTodo := todo }
+
+/-- backend.c set_heart_beat(ob, 1): a new entry goes to the end of the array -/
+def hbAdd (w : World) (ob : Nat) : World :=
+  if ob ∈ w.hbl then w else { w with hbl := w.hbl ++ [ob] }
+
+/-- error_handler(): an uncaught error while a heart_beat() is running turns that object's heart beat off -/
+def hbOff (w : World) : World :=
+  match w.curHb with
+  | none => w
+  | some h => if (w.c.objs h).destructed then { w with curHb := none } else { hbRemove w h with curHb := none }
+
+/-- error(): the master logs the first line; error_handler() resets restrict_destruct (and see `hbOff`) -/
 def raise (w : World) (msg : String) : R :=
-  { w := emit { w with restrict := none } s!"err {msg}", out := .err }
+  { w := hbOff (emit { w with restrict := none } s!"err {msg}"), out := .err }
 
 def crashR (w : World) (what : String) : R := { w := emit w s!"crash {what}", out := .crash }
 def hangR (w : World) (what : String) : R := { w := emit w s!"hang {what}", out := .hang }
@@ -368,18 +395,18 @@ inductive Task where
   | destruct (ob : Nat)                                    -- destruct_object
   | dloop (ob : Nat) (sup0 : Option Nat) (saveR : Option Nat)  -- its `while (ob->contains)` loop
 
-def errInside := "*Can't move object inside itself."
-def errDestDest := "*Can't move to a destructed object."
-def errMoveDested := "move_object(): can't move a destructed object"
+def errInside := NV.Gen.C08.errInsideSrc
+def errDestDest := NV.Gen.C08.errDestDestSrc
+def errMoveDested := NV.Gen.C08.errMoveDestedSrc
 def errInitDested := "*An object was destructed at call of init()"
 def errItemDested := "*The object to be moved was destructed at call of init()!"
 def errDestGone := "*The destination to move to was destructed at call of init()!"
-def errRestrict := "*Only this_object() can be destructed from move_or_destruct."
+def errRestrict := NV.Gen.C08.errRestrictSrc
 def errBadFile := "*Error in loading object '/c08/bad':"
 def errBoom := "*boom"
 def errFis (b : Base) : String :=
   "Bad argument 1 to first_inventory(), Expected: string or object Got: \"/" ++ b.str ++ "\"."
-def errNoDest := "move_object failed: could not find destination"
+def errNoDest := NV.Gen.C08.errNoDestSrc
 
 /-- the interpreter; every call decreases the fuel -/
 def exec (sc : Scripts) : Nat → Task → World → R
@@ -416,6 +443,14 @@ def exec (sc : Scripts) : Nat → Task → World → R
               -- x_mvs returns environment() after the move
               { w := emit w s!"r mvs {oid a} {b.str} ok {roid w.c self ((w.c.objs a).super.bind (readRef w.c))}" }
           | none => { w := emit w s!"r mvs {oid a} {b.str} !gone" }
+        | .hbe a =>
+          match readRef w.c a with
+          | some a => { w := emit (hbAdd w a) s!"r hbe {oid a} ok" }
+          | none => { w := emit w s!"r hbe {oid a} !gone" }
+        | .hbd a =>
+          match readRef w.c a with
+          | some a => { w := emit (hbRemove w a) s!"r hbd {oid a} ok" }
+          | none => { w := emit w s!"r hbd {oid a} !gone" }
         | .pr e t =>
           -- f_present(string, object): a destructed environment gives 0
           match readRef w.c e with
@@ -543,8 +578,10 @@ def exec (sc : Scripts) : Nat → Task → World → R
         | none => { w := w, val := none }
         | some ob =>
           if ¬ (ob < w.c.n) ∨ (w.c.objs ob).freed then crashR w "clone_object"
-          else if (w.c.objs ob).clone then raise w "*Cannot clone from a clone!"
+          else if (w.c.objs ob).clone then raise w NV.Gen.C08.errCloneCloneSrc
           else
+            -- "We do not want the heart beat to be running for unused copied objects"
+            let w := hbRemove w ob
             let nm : Name := { base := (w.c.objs ob).name.base, num := some w.c.ctr }
             let a := alloc { w.c with ctr := w.c.ctr + 1 } nm true
             let w := { w with c := a.1 }
@@ -659,7 +696,10 @@ def exec (sc : Scripts) : Nat → Task → World → R
         else if anyFreed w.c inv ∨ anyFreed w.c (w.c.ot (hashN nm)) ∨ anyFreed w.c w.c.ol
             ∨ anyFreed w.c (match (w.c.objs ob).living with | none => [] | some s => w.c.lv (lhash s)) then
           crashR w "destruct_object unlink"
-        else { w := { w with c := finishDestruct (unsentDestruct w.c ob) ob } }
+        else
+          -- (set_heart_beat(ob, 0) runs just before O_DESTRUCTED is set)
+          let w := hbRemove w ob
+          { w := { w with c := finishDestruct (unsentDestruct w.c ob) ob } }
       | otmp :: _ =>
         if ¬ (otmp < w.c.n) ∨ (w.c.objs otmp).freed then crashR w "destruct_object contains"
         else
@@ -746,9 +786,41 @@ def probe (w : World) : World :=
       let o := w.c.objs i
       emit w s!"P {oid i} ref={oid i} find={found} env={ooid (o.super.bind (readRef w.c))} inv={joinIds (o.contains.filterMap (readRef w.c))} walk={joinIds (invWalk w.c (w.c.n + 1) o.contains.head?)} fl={fl.2}") w
   let w := emit w s!"P objects {joinIds (sortIds (w.c.ol.filter (· ≥ 2)))}"
-  emit w s!"P livings {joinIds (sortIds ((w.c.ol.filter (fun i => (w.c.objs i).ec)).filter (· ≥ 2)))}"
+  let w := emit w s!"P livings {joinIds (sortIds ((w.c.ol.filter (fun i => (w.c.objs i).ec)).filter (· ≥ 2)))}"
+  emit w s!"P heartbeats {joinIds (sortIds (w.hbl.filter (· ≥ 2)))}"
+
+/-- one timer tick (call_heart_beat, heart beats only): the round over the heart-beat array as coded -
+    `num_hb_to_do = num_hb_objs; heart_beat_index = 0; do { call heart_beat() of heart_beats[index] }
+    while (++heart_beat_index != num_hb_to_do)`; every removal inside adjusts both counters (`hbRemove`).
+    heart_beat() is entered with call_function (no O_DESTRUCTED test): a stale slot would be *called*. -/
+def hbRound (sc : Scripts) : Nat → World → R
+  | 0, w => { w := w }
+  | fuel + 1, w =>
+    match w.hbl[w.hbIdx.toNat]? with
+    | none => { w := emit w s!"hb-stale-slot {w.hbIdx}" }
+    | some ob =>
+      -- the list only ever holds valid objects (C11); an invalid entry is reported, not entered
+      if ¬ (ob < w.c.n ∧ (w.c.objs ob).freed = false ∧ (w.c.objs ob).destructed = false) then
+        { w := emit w s!"hb-stale-object {oid ob}" }
+      else
+        let w := { w with cg := if (w.c.objs ob).ec then some ob else none, curHb := some ob }
+        (exec sc topFuel (.hook ob .hbeat none) w).andThen fun w _ =>
+          let w := { w with cg := none, hbIdx := w.hbIdx + 1 }
+          if w.hbIdx = (w.hbTodo : Int) then { w := w } else hbRound sc fuel w
+
+def tick (sc : Scripts) (w : World) : World :=
+  let w0 := { w with hbTodo := w.hbl.length }
+  if w0.hbTodo = 0 then w0
+  else
+    let r := hbRound sc (w.hbl.length + 1000) { w0 with hbIdx := 0 }
+    match r.out with
+    | .ok => { r.w with hbIdx := 0, hbTodo := 0, curHb := none }
+    -- an error abandons the round (backend()'s recovery point); restore_context() restores command_giver
+    | .err => emit { r.w with cg := w.cg } "r tick !err"
+    | _ => r.w
 
 inductive Cmd where
+  | tick                 -- one timer tick (verif_tick)
   | top (op : Op)        -- master->do_op(op)
   | snap
   | probe
@@ -765,6 +837,7 @@ def stepCmd (sc : Scripts) (w : World) : Cmd → World
     -- restore_context() puts command_giver back to its value at save_context()
     | .err => emit { r.w with cg := w.cg } "r top !err"
     | _ => r.w
+  | .tick => tick sc w
   | .snap => { w with out := (snapLines w.c).reverse ++ w.out }
   | .probe => probe w
   -- the harness clears command_giver as backend()'s clear_state does before remove_destructed_objects()
